@@ -1,12 +1,13 @@
 (* C05 for messages with lists: decoding ANY byte string with a message built from standard-length CODED-CONST /
-   VALUE parameters, STRUCTUREs (with or without BYTE-SIZE), STATIC-FIELDs, DYNAMIC-LENGTH-FIELDs and
-   END-OF-PDU-FIELDs of structures, nested to any depth, returns values or a decode error -- no other error
+   VALUE parameters, STRUCTUREs (with or without BYTE-SIZE), STATIC-FIELDs, DYNAMIC-LENGTH-FIELDs,
+   END-OF-PDU-FIELDs of structures and MULTIPLEXERs (any cases, key ranges and default case; cases with or without
+   content), nested to any depth, returns values or a decode error -- no other error
    class, and the loops which run "to the end of the PDU" never run out of fuel (every round consumes a byte). *)
 From Coq Require Import ZArith List Bool Lia ZifyBool.
 From OV Require Import Base.Bytes Base.Wire Generated Model.Str Model.Codec
      Proofs.BytesProofs Proofs.AtomicProofs Proofs.CodecProps Proofs.FlatProofs Proofs.FlatDecodeProofs
      Proofs.TreeProofs Proofs.TreeWireProofs Proofs.FieldProofs Proofs.DynFieldProofs Proofs.EopFieldProofs
-     Proofs.TreeDecodeProofs Proofs.BStructProofs.
+     Proofs.TreeDecodeProofs Proofs.BStructProofs Proofs.MuxProofs.
 Import ListNotations.
 Open Scope Z_scope.
 
@@ -191,13 +192,88 @@ Proof.
   - right. right. rewrite E. reflexivity.
 Qed.
 
+(* ---------- multiplexers ---------- *)
+(* the content of a case: the data object of a VALUE parameter (anything else: a case without content) *)
+Definition case_dop (p : param) : option dop := match pkind_of p with KValue d _ => Some d | _ => None end.
+Definition mk_case (lim : Z * Z) (p : param) : mcase := MC (pname p) (fst lim) (snd lim) (case_dop p).
+
+(* from the parameter to its data object (states at bit position 0, as the multiplexer produces them) *)
+Lemma case_dop_tot fd nm k sd :
+  ptot (S fd) (P nm None None k) -> case_dop (P nm None None k) = Some sd ->
+  forall s, d_bit s = 0 -> 0 <= d_cur s -> tot (dec_dop fd sd s) s.
+Proof.
+  intros Hp Hc s Hb H0. unfold case_dop in Hc. cbn [pkind_of] in Hc.
+  destruct k as [| d dflt | | | | |]; try discriminate. injection Hc as ->.
+  specialize (Hp s H0). cbn [dec_param opt_or0] in Hp.
+  assert (Es : dset_bit s 0 = s) by (destruct s; cbn in Hb; subst; reflexivity).
+  rewrite Es in Hp.
+  destruct (dec_dop fd sd s) as [[v s1]|e] eqn:E.
+  - cbn [bind fst snd] in Hp. destruct Hp as [(v' & s' & G & M1 & M2)|[G|G]]; try discriminate.
+    injection G as <- <-. left. exists v, s1. split; [reflexivity|]. exact (conj M1 M2).
+  - cbn [bind] in Hp. destruct Hp as [(v' & s' & G & _)|G]; [discriminate|]. right. exact G.
+Qed.
+
+Lemma key_dec f kbl hl s : 0 < kbl ->
+  (exists n, dec_dop (S f) (key_dop kbl hl) s =
+             Ok (VInt n, mkD (d_msg s) (d_origin s) (d_cur s + nbytes_of kbl (d_bit s)) 0 (d_lkeys s))) \/
+  derr (dec_dop (S f) (key_dop kbl hl) s).
+Proof.
+  intros Hbl. unfold key_dop. cbn [dec_dop dec_dct].
+  assert (W : wf_atom BUint None hl = true) by (destruct hl; reflexivity).
+  destruct (extract_cases s kbl BUint None hl Hbl W) as [(v & E & Hle)|[E|E]].
+  - rewrite E. cbn [bind valid_int dct_bt].
+    destruct (isinstance_bt BUint v) eqn:Iv; [|right; left; reflexivity].
+    destruct (uint_value v Iv) as (n & ->). cbn [i2p bind]. left. exists n. reflexivity.
+  - right. left. rewrite E. reflexivity.
+  - right. right. rewrite E. reflexivity.
+Qed.
+
+Lemma mux_dtot f kbl hl cases dflt :
+  0 < kbl ->
+  (forall c sd, In c cases \/ dflt = Some c -> mc_struct c = Some sd ->
+                forall s, d_bit s = 0 -> 0 <= d_cur s -> tot (dec_dop (S f) sd s) s) ->
+  dtot (S (S f)) (DMux (nbytes_of kbl 0) 0 0 (key_dop kbl hl) cases dflt).
+Proof.
+  intros Hbl Hc s H0. rewrite dec_dop_mux.
+  set (sc := dset_bit (dset_cur (dset_origin s (d_cur s)) (d_origin (dset_origin s (d_cur s)) + 0)) 0).
+  cbv zeta. fold sc.
+  pose proof (nbytes_nonneg kbl Hbl) as Hnb.
+  destruct (key_dec f kbl hl sc Hbl) as [(n & E)|[E|E]].
+  - rewrite E. cbn [bind].
+    set (s1 := dset_bit (mkD (d_msg sc) (d_origin sc) (d_cur sc + nbytes_of kbl (d_bit sc)) 0 (d_lkeys sc)) 0).
+    assert (M1 : d_msg s1 = d_msg s) by reflexivity.
+    assert (C1 : d_cur s1 = d_cur s + 0 + nbytes_of kbl 0) by reflexivity.
+    assert (O1 : d_origin s1 = d_cur s) by reflexivity.
+    destruct (match find (mc_applies n) cases with Some c => Some c | None => dflt end) as [c|] eqn:Sel;
+      [|right; left; reflexivity].
+    assert (Hin : In c cases \/ dflt = Some c).
+    { destruct (find (mc_applies n) cases) as [c'|] eqn:F.
+      - injection Sel as <-. left. exact (proj1 (find_some _ _ F)).
+      - right. exact Sel. }
+    destruct (mc_struct c) as [sd|] eqn:St.
+    + set (s2 := dset_cur s1 (d_origin s1 + nbytes_of kbl 0)).
+      destruct (Hc c sd Hin St s2 eq_refl ltac:(cbn [s2 dset_cur d_cur]; rewrite O1; lia)) as [(v & s3 & G & N1 & N2)|[G|G]].
+      * rewrite G. cbn [bind fst snd]. left. eexists _, _. split; [reflexivity|]. unfold dmono. cbn [dset_origin d_msg d_cur].
+        cbn [s2 dset_cur d_msg d_cur] in N1, N2. rewrite O1 in N2. split; [congruence | lia].
+      * right. left. rewrite G. reflexivity.
+      * right. right. rewrite G. reflexivity.
+    + cbn [bind fst snd]. left. eexists _, _. split; [reflexivity|]. unfold dmono. cbn [dset_origin d_msg d_cur].
+      split; [exact M1 | lia].
+  - right. left. rewrite E. reflexivity.
+  - right. right. rewrite E. reflexivity.
+Qed.
+
 (* ---------- descriptions ---------- *)
 Inductive xdesc :=
 | XLeaf (x : fdesc)
 | XStruct (nm : name) (cs : list xdesc) (bs : option Z)
 | XStatic (nm : name) (cs : list xdesc) (n isz : Z)
 | XDyn (nm : name) (cs : list xdesc) (bl : Z) (hl : bool)
-| XEop (nm : name) (cs : list xdesc).
+| XEop (nm : name) (cs : list xdesc)
+(* a multiplexer: bit length and byte order of the switch key, the key ranges of the cases, one description per case
+   (its name is the name of the case; a VALUE parameter: the case's content, anything else: a case without content),
+   and the default case (the head of ds, if any) *)
+| XMux (nm : name) (kbl : Z) (hl : bool) (lims : list (Z * Z)) (cs : list xdesc) (ds : list xdesc).
 
 Fixpoint x_p (t : xdesc) : param :=
   match t with
@@ -206,12 +282,16 @@ Fixpoint x_p (t : xdesc) : param :=
   | XStatic nm cs n isz => static_param nm (map x_p cs) n isz
   | XDyn nm cs bl hl => dyn_param nm (map x_p cs) bl hl
   | XEop nm cs => eop_param nm (map x_p cs)
+  | XMux nm kbl hl lims cs ds =>
+    mux_param nm kbl hl (map (fun lp => mk_case (fst lp) (snd lp)) (combine lims (map x_p cs)))
+              (match map x_p ds with d :: _ => Some (mk_case (0, 0) d) | [] => None end)
   end.
 
 Definition x_children (t : xdesc) : list xdesc :=
   match t with
   | XLeaf _ => []
   | XStruct _ cs _ | XStatic _ cs _ _ | XDyn _ cs _ _ | XEop _ cs => cs
+  | XMux _ _ _ _ cs ds => cs ++ ds
   end.
 
 Fixpoint x_depth (t : xdesc) : nat :=
@@ -219,6 +299,9 @@ Fixpoint x_depth (t : xdesc) : nat :=
   | XLeaf _ => 0
   | XStruct _ cs _ | XStatic _ cs _ _ | XDyn _ cs _ _ | XEop _ cs =>
     S (fold_right (fun c a => Nat.max (x_depth c) a) 0%nat cs)
+  | XMux _ _ _ _ cs ds =>
+    S (Nat.max (fold_right (fun c a => Nat.max (x_depth c) a) 0%nat cs)
+               (fold_right (fun c a => Nat.max (x_depth c) a) 0%nat ds))
   end.
 
 (* sane: positive bit lengths and legal types at the leaves, a non-negative item size, a positive count length *)
@@ -230,6 +313,7 @@ Fixpoint x_wf (t : xdesc) : Prop :=
   | XStatic _ cs _ isz => 0 <= isz /\ all cs
   | XDyn _ cs bl _ => 0 < bl /\ all cs
   | XEop _ cs => all cs
+  | XMux _ kbl _ _ cs ds => 0 < kbl /\ all cs /\ all ds
   end.
 
 Lemma x_all_in (cs : list xdesc) :
@@ -242,12 +326,13 @@ Qed.
 
 Lemma x_wf_children t : x_wf t -> forall c, In c (x_children t) -> x_wf c.
 Proof.
-  destruct t as [x|nm cs bs|nm cs n isz|nm cs bl hl|nm cs]; cbn [x_wf x_children]; intros H c Hc.
+  destruct t as [x|nm cs bs|nm cs n isz|nm cs bl hl|nm cs|nm kbl hl lims cs ds]; cbn [x_wf x_children]; intros H c Hc.
   - contradiction.
   - now apply (x_all_in cs).
   - now apply (x_all_in cs (proj2 H)).
   - now apply (x_all_in cs (proj2 H)).
   - now apply (x_all_in cs).
+  - destruct H as (_ & Hcs & Hds). apply in_app_or in Hc as [Hc|Hc]; [now apply (x_all_in cs) | now apply (x_all_in ds)].
 Qed.
 
 Lemma x_depth_children t c : In c (x_children t) -> (x_depth c < x_depth t)%nat.
@@ -255,7 +340,19 @@ Proof.
   assert (G : forall cs, In c cs -> (x_depth c < S (fold_right (fun c a => Nat.max (x_depth c) a) 0%nat cs))%nat).
   { induction cs as [|x cs IH]; intros H; [contradiction|]. cbn [fold_right].
     destruct H as [<-|H]; [lia|]. specialize (IH H). lia. }
-  destruct t; cbn [x_children x_depth]; intros H; try contradiction; now apply G.
+  destruct t; cbn [x_children x_depth]; intros H; try contradiction; try (now apply G).
+  apply in_app_or in H as [H|H]; [specialize (G cs H) | specialize (G ds H)]; lia.
+Qed.
+
+Lemma x_p_shape t : exists nm k, x_p t = P nm None None k.
+Proof.
+  destruct t as [x|nm cs bs|nm cs n isz|nm cs bl hl|nm cs|nm kbl hl lims cs ds]; cbn [x_p].
+  - destruct (mkp_shape x) as (k & E). eexists _, _. exact E.
+  - eexists _, _. reflexivity.
+  - eexists _, _. reflexivity.
+  - eexists _, _. reflexivity.
+  - eexists _, _. reflexivity.
+  - eexists _, _. reflexivity.
 Qed.
 
 Theorem x_ptot : forall d t, (x_depth t <= d)%nat -> x_wf t -> ptot_ge (4 * d + 2) (x_p t).
@@ -268,7 +365,7 @@ Proof.
                   forall fd, (4 * d + 2 <= fd)%nat -> forall p, In p (map x_p cs) -> ptot fd p).
     { intros cs H fd Hfd p Hp. apply in_map_iff in Hp as (c & <- & Hc'). now apply H. }
     intros fd Hfd.
-    destruct t as [x|nm cs bs|nm cs n isz|nm cs bl hl|nm cs]; cbn [x_p x_children] in *.
+    destruct t as [x|nm cs bs|nm cs n isz|nm cs bl hl|nm cs|nm kbl hl lims cs ds]; cbn [x_p x_children] in *.
     + apply (leaf_ptot x Hw). lia.
     + destruct fd as [|[|[|fd]]]; try lia.
       apply value_ptot. apply struct_dtot. apply (Hps cs Hc). lia.
@@ -281,6 +378,23 @@ Proof.
     + destruct fd as [|[|[|[|fd]]]]; try lia. unfold eop_param.
       apply field_ptot. intros s Hb H0. apply eop_dtot; [|exact Hb|exact H0].
       apply struct_dtot. apply (Hps cs Hc). lia.
+    + destruct fd as [|[|[|fd]]]; try lia. unfold mux_param.
+      apply value_ptot. apply mux_dtot; [apply Hw|].
+      (* every case (and the default case) stems from a child *)
+      assert (Hchild : forall q, In q (map x_p (cs ++ ds)) -> ptot (S (S fd)) q).
+      { intros q Hq. apply in_map_iff in Hq as (c0 & <- & Hc0). apply (Hc c0 Hc0). lia. }
+      intros c sd Hin Hst.
+      assert (Hq : exists q, In q (map x_p (cs ++ ds)) /\ mc_struct c = case_dop q).
+      { destruct Hin as [Hin|Hin].
+        - apply in_map_iff in Hin as ((lim & q) & <- & Hlq). exists q. split; [|reflexivity].
+          apply in_combine_r in Hlq. rewrite map_app. apply in_or_app. now left.
+        - destruct (map x_p ds) as [|q qs] eqn:Eds; [discriminate|]. injection Hin as <-. exists q. split; [|reflexivity].
+          rewrite map_app. apply in_or_app. right. rewrite Eds. now left. }
+      destruct Hq as (q & Hq & Eq). rewrite Eq in Hst.
+      assert (Hshape : exists nm' k', q = P nm' None None k').
+      { apply in_map_iff in Hq as (c0 & <- & _). apply x_p_shape. }
+      destruct Hshape as (nm' & k' & ->).
+      apply (case_dop_tot (S fd) nm' k' sd (Hchild _ Hq) Hst).
 Qed.
 
 (* ---------- messages ---------- *)
@@ -320,6 +434,38 @@ Proof.
     intros t [<-|[<-|[<-|[<-|[]]]]]; (split; [cbn; lia|]); cbn [x_wf]; repeat split; try apply W; lia.
   - vm_compute. lia.
   - eexists. vm_compute. reflexivity.
+  - vm_compute. reflexivity.
+  - vm_compute. reflexivity.
+Qed.
+
+(* a request with a multiplexer: id, a MUX with an 8 bit key -- keys 16..31: {a: 8 bit, b: 16 bit}, key 32: no content,
+   any other key: the default case {d: 8 bit} --, then records to the end of the PDU; and the same without default case *)
+Example mux_decode_example :
+  let u8 nm := mkF nm 8 BUint None true BUint None in
+  let u16 nm := mkF nm 16 BUint None true BUint None in
+  let mk ds := [XLeaf (mkF [115] 8 BUint None true BUint (Some (VInt 34)));
+                XMux [109] 8 true [(16, 31); (32, 32)]
+                     [XStruct [120] [XLeaf (u8 [97]); XLeaf (u16 [98])] None;
+                      XLeaf (mkF [121] 8 BUint None true BUint (Some (VInt 0)))] ds;
+                XEop [101] [XLeaf (u8 [122])]] in
+  let ts := mk [XStruct [100] [XLeaf (u8 [100])] None] in
+  (forall t, In t ts -> (x_depth t <= 2)%nat /\ x_wf t) /\
+  (4 * 2 + 3 <= fuel_of (map x_p ts))%nat /\
+  (exists v, decode_msg (map x_p ts) [34; 17; 7; 1; 2; 9; 9] = Ok v) /\
+  (exists v, decode_msg (map x_p ts) [34; 32; 9] = Ok v) /\
+  (exists v, decode_msg (map x_p ts) [34; 200; 5] = Ok v) /\
+  decode_msg (map x_p ts) [34; 17; 7; 1] = Err EDecode /\
+  decode_msg (map x_p ts) [34] = Err EDecode /\
+  decode_msg (map x_p (mk [])) [34; 200; 5] = Err EDecode.
+Proof.
+  intros u8 u16 mk ts. split; [|split; [|split; [|split; [|split; [|split; [|split]]]]]].
+  - assert (W : forall nm bl hl c, 0 < bl -> fwf (mkF nm bl BUint None hl BUint c)) by (intros; split; [assumption | reflexivity]).
+    intros t [<-|[<-|[<-|[]]]]; (split; [cbn; lia|]); cbn [x_wf]; repeat split; try apply W; lia.
+  - vm_compute. lia.
+  - eexists. vm_compute. reflexivity.
+  - eexists. vm_compute. reflexivity.
+  - eexists. vm_compute. reflexivity.
+  - vm_compute. reflexivity.
   - vm_compute. reflexivity.
   - vm_compute. reflexivity.
 Qed.
